@@ -100,3 +100,61 @@ Print Assumptions C05_tuple_sets_exactly.
 Print Assumptions C05_garbage_is_response_error.
 Print Assumptions C05_garbage_is_500.
 Print Assumptions C05_headers_preserved.
+
+(* ---- translator tie: [make_response] and [to_response] used above are
+   equal to the definitions generated from the current
+   poorwsgi/response.py (make_response) and poorwsgi/wsgi.py (to_response)
+   by harness/py2v_shapes.py (gen/ShapesGen.v is rewritten on every check
+   run), over the primitives of lib/PyShapes.v and lib/PyDispatch.v.
+   [je] is the reading of a PListJson value ("it is the empty list");
+   domain: 200 and 204 are registered status codes (the source rewrites
+   200 to 204 for None before the constructor validates the status, the
+   model validates first). *)
+Require Import PW.lib.PyDispatch PW.lib.PyShapes PW.gen.ShapesGen PW.proofs.ShapesGenEq.
+
+Theorem C05_generated_make_response_is_model :
+  forall w je,
+    w_known w 200 = true -> w_known w 204 = true ->
+    forall d c h s,
+      gen_make_response w je (DV d) (DV c) (DV h) (DV s)
+      = (match make_response (w_known w) d c h s with
+         | Some r => Val (DV (PResp r))
+         | None => Exc ERespErr
+         end, []).
+Proof. exact gen_make_response_eq. Qed.
+Print Assumptions C05_generated_make_response_is_model.
+
+Theorem C05_generated_to_response_is_model :
+  forall w je,
+    w_known w 200 = true -> w_known w 204 = true ->
+    forall v,
+      gen_to_response w je (DV v) = (lift_resp (to_response (w_known w) v), []).
+Proof. exact gen_to_response_eq. Qed.
+Print Assumptions C05_generated_to_response_is_model.
+
+(* the start_response call of a body-carrying response: the generated
+   BaseResponse.__start_response__ (its range block, tied in gen/RangeGen.v /
+   C07, replaced by `pass`; no ranges set) run on the attributes of the
+   response object records exactly the call [emit] makes: status line, the
+   object's headers, Content-Type / Content-Length appended only if absent *)
+Theorem C05_generated_emit_is_model :
+  forall w je,
+    forall sr st hs ct cl units body,
+      gen_start_response w je sr (DV (PInt st)) (DV (PStr (w_reason w st)))
+        (DV (PHdrs (Some hs))) (DV (PStr ct)) (DV (PInt cl)) (DV (PTuple [])) units
+        (DEm (mkEmitted [] []))
+      = (Val (DEm (mkEmitted
+                     (calls (emit (w_reason w) (mkResp CBase st hs ct cl body))) [])), []).
+Proof. exact gen_start_response_eq. Qed.
+Print Assumptions C05_generated_emit_is_model.
+
+(* NoContentResponse.__start_response__ *)
+Theorem C05_generated_emit_nocontent_is_model :
+  forall w je,
+    forall sr st hs ct cl ranges units ct0 cl0 body,
+      gen_nocontent_start_response w je sr (DV (PInt st)) (DV (PStr (w_reason w st)))
+        (DV (PHdrs (Some hs))) ct cl ranges units (DEm (mkEmitted [] []))
+      = (Val (DEm (mkEmitted
+                     (calls (emit (w_reason w) (mkResp CNoContent st hs ct0 cl0 body))) [])), []).
+Proof. exact gen_nocontent_start_response_eq. Qed.
+Print Assumptions C05_generated_emit_nocontent_is_model.
